@@ -121,6 +121,7 @@ class FakeHidDevice:
             raise OSError("open failed")
         self.opened = True
         self.host_closed = False
+        self.rqueue, self.stale_frames, self.lagging = [], [], False     # a fresh handle: empty queue
         link.handles += 1
         link.open_handle = self
         link.tlog("open")
